@@ -747,6 +747,32 @@ struct XDlist : mc::Model
                 const XList &cq = q;
                 for (auto i = cq.begin(); i != cq.end(); ++i)
                     cf.push_back(H + i->id);
+                // the VALUE of the postfix forms is the old position: `*it++` / `*it--` idioms
+                {
+                    vector<int> pf, pr, pb;
+                    for (auto i = q.begin(); i != q.end() && pf.size() <= want.size();)
+                        pf.push_back(H + (*i++).id);
+                    for (auto i = q.rbegin(); i != q.rend() && pr.size() <= want.size();)
+                        pr.push_back(H + (*i++).id);
+                    if (!want.empty())
+                    {
+                        auto i = q.end();
+                        --i; // last element
+                        while (pb.size() < want.size())
+                        {
+                            bool first = (i == q.begin());
+                            if (first)
+                            {
+                                pb.push_back(H + (*i).id);
+                                break;
+                            }
+                            pb.push_back(H + (*i--).id);
+                        }
+                    }
+                    if (pf != want || pr != wrev || pb != wrev)
+                        mc::violation(mc::fmt("C01.cxx_dlist.%s.postfix_value", sigk), "%s: *it++ forward %s (want %s), *rit++ %s, *it-- %s (want %s)", el(l).c_str(),
+                                      vstr(pf).c_str(), vstr(want).c_str(), vstr(pr).c_str(), vstr(pb).c_str(), vstr(wrev).c_str());
+                }
                 if (b2 != wrev || r2 != wrev)
                     mc::violation(mc::fmt("C01.cxx_dlist.%s.backward", sigk), "%s postfix backward walk %s / %s want %s", el(l).c_str(),
                                   vstr(b2).c_str(), vstr(r2).c_str(), vstr(wrev).c_str());
